@@ -19,6 +19,8 @@ var (
 		reConcat(reRange(0xf4, 0xf4), reRange(0x80, 0x8f), reCont, reCont))
 	reUTF8Char = reUnion(reAscii, reTwo, reThree, reFour)
 	reUTF8     = reStar(reUTF8Char)
+	// the bound of the encoding: characters of one or two bytes
+	reUTF8Short = reStar(reUnion(reAscii, reTwo))
 )
 
 // firstChar splits s (known non-empty) into its first UTF-8 character and the
@@ -65,8 +67,8 @@ func (m *machine) explode(s *Term) value {
 		if m.branch(mkStrEq(rem, mkStr(""))) {
 			break
 		}
-		if len(out) >= m.w.cfg.RunesMax {
-			panic(cut{fmt.Sprintf("string exploded into more than %d characters (outside bound)", m.w.cfg.RunesMax)})
+		if len(out) >= m.runesMax {
+			panic(cut{fmt.Sprintf("string exploded into more than %d characters (outside bound)", m.runesMax)})
 		}
 		if rem.Op == "cs" {
 			for _, r := range rem.S {
@@ -88,8 +90,9 @@ func (m *machine) explode(s *Term) value {
 func (m *machine) runesOf(s *Term) value {
 	if !m.known["utf8:"+s.key] {
 		m.known["utf8:"+s.key] = true
-		m.assumptions["strings converted to []rune are valid UTF-8 (invalid sequences are outside the bound)"] = true
-		m.assumeChecked(mkInRe(s, reUTF8))
+		if !m.branch(mkInRe(s, reUTF8Short)) {
+			panic(cut{"string converted to []rune contains a UTF-8 sequence longer than 2 bytes or invalid UTF-8 (outside bound)"})
+		}
 	}
 	return &runesV{s: s}
 }
@@ -123,7 +126,7 @@ func (m *machine) firstCharAny(s *Term) (*Term, *Term) {
 			return mkStr(c), mkStr(s.S[len(c):])
 		}
 	}
-	return m.firstChar(s, 4)
+	return m.firstChar(s, 2)
 }
 
 func (m *machine) runesSlice(r *runesV, lo, hi value) value {
